@@ -774,7 +774,7 @@ def cmd_check(prop, tier):
             # e.g. the first execution after a change to /repo/runtime recompiles the path dependencies
             # inside `cargo rustdoc`: slow once, not a property of pavexc. Recorded, not reported.
             observations["cpu_outlier_not_reproduced"] = observations.get("cpu_outlier_not_reproduced", 0) + 1
-    timeouts = [x for x in viols if x["signature"] == "wall-clock-timeout"]
+    timeouts = [x for x in viols if x["signature"].startswith("wall-clock-timeout")]
     for x in timeouts:
         run = x["_run"]
         again = run_one(ctx, to_concrete(run), run["slot"])
@@ -809,7 +809,7 @@ def cmd_check(prop, tier):
         slot = run["slot"]
         # every candidate of a non-terminating execution costs a full wall-clock limit: only cut the
         # history after the failing execution and confirm that it replays
-        b = 1 if key[1] == "wall-clock-timeout" else budget
+        b = 1 if key[1].startswith("wall-clock-timeout") else budget
         return key, x, minimise(ctx, run, x, slot, b)
 
     # different groups are minimised in parallel only when they sit on different slots
